@@ -22,6 +22,8 @@ pub struct Evidence {
     pub assumptions: Vec<String>,
     pub violations: u64,
     pub exhaustive: Option<bool>,
+    /// replay runs judge one saved input: their (tiny) evidence goes to work/replay-evidence/, never to evidence/
+    pub replay: bool,
 }
 
 impl Evidence {
@@ -44,6 +46,7 @@ impl Evidence {
             assumptions: Vec::new(),
             violations: 0,
             exhaustive: None,
+            replay: args.replay.is_some(),
         }
     }
 
@@ -132,7 +135,7 @@ impl Evidence {
     }
 
     pub fn write(&self) {
-        let dir = crate::verif_root().join("evidence");
+        let dir = if self.replay { crate::verif_root().join("work").join("replay-evidence") } else { crate::verif_root().join("evidence") };
         let _ = std::fs::create_dir_all(&dir);
         let path = dir.join(format!("{}.json", self.prop));
         let text = serde_json::to_string_pretty(&self.to_json()).unwrap_or_else(|_| "{}".into());
